@@ -880,3 +880,67 @@ Proof.
   unfold Parsed.set_offset. rewrite set_checked_fresh; [|destruct wd, sec; reflexivity|unfold i32_min, i32_max; lia].
   cbv [pset pok pbind bind]. rewrite Ncom. cbv [bind is_empty]. reflexivity.
 Qed.
+
+(** * timezone_offset_2822 never traps on a well-formed string *)
+Lemma tz_tail_nocolon_total neg s : utf8_valid s = true -> exists r, tz_tail neg s (fun s => pok s) false = Val r.
+Proof.
+  intros Hv. unfold tz_tail. destruct s as [|h1 [|h2 s2]]; try (eexists; reflexivity). cbn [tz_digits].
+  destruct (is_ascii_digit h1) eqn:E1; [|eexists; reflexivity]. destruct (is_ascii_digit h2) eqn:E2; [|eexists; reflexivity].
+  cbn [andb]. pose proof (digit_range h1 E1). pose proof (digit_range h2 E2).
+  rewrite two_digit_value_ok by assumption. cbv [plift bind pbind].
+  assert (Hv2 : utf8_valid s2 = true) by (rewrite !utf8_valid_ascii in Hv by lia; exact Hv).
+  rewrite str_from_2 by (apply utf8_valid_starts_ok; exact Hv2). cbv [bind pbind pok].
+  destruct s2 as [|m1 [|m2 s4]]; try (eexists; reflexivity). cbn [tz_digits].
+  change TZ_MIN_TENS_LO with 48. change TZ_MIN_TENS_HI with 53. change TZ_MIN_OOR_TENS_LO with 54. change TZ_MIN_OOR_TENS_HI with 57.
+  destruct ((48 <=? m1) && (m1 <=? 53) && is_ascii_digit m2) eqn:Em.
+  2:{ destruct ((54 <=? m1) && (m1 <=? 57) && is_ascii_digit m2); cbv [perr_ pbind bind]; eexists; reflexivity. }
+  apply andb_prop in Em. destruct Em as [Em1 Em2]. pose proof (digit_range m2 Em2).
+  assert (is_ascii_digit m1 = true) by (unfold is_ascii_digit; lia).
+  rewrite two_digit_value_ok by assumption. cbv [plift bind pbind].
+  rewrite !blen_cons. pose proof (blen_nonneg s4). replace (1 + (1 + blen s4) >=? 2) with true by lia.
+  assert (Hv4 : utf8_valid s4 = true) by (rewrite !utf8_valid_ascii in Hv2 by lia; exact Hv2).
+  rewrite str_from_2 by (apply utf8_valid_starts_ok; exact Hv4). cbv [plift bind pbind].
+  change TZ_SECS_PER_HOUR with 3600. change TZ_SECS_PER_MINUTE with 60.
+  unfold mul_i32, add_i32, neg_i32.
+  rewrite chk_in by (unfold in_i32, in_range, i32_min, i32_max; lia). cbv [bind].
+  rewrite chk_in by (unfold in_i32, in_range, i32_min, i32_max; lia). cbv [bind].
+  rewrite chk_in by (unfold in_i32, in_range, i32_min, i32_max; lia). cbv [bind].
+  destruct neg; [|eexists; reflexivity].
+  rewrite chk_in by (unfold in_i32, in_range, i32_min, i32_max; lia). eexists; reflexivity.
+Qed.
+Lemma assoc_lc_range key t o : assoc_lc key t = Some o -> In o (map snd t).
+Proof.
+  induction t as [|[k v] t IH]; [discriminate|]. cbn [assoc_lc map snd].
+  destruct ((blen key =? blen k) && all2 Z.eqb key (map to_ascii_lowercase k)).
+  - intros H. injection H as ->. left. reflexivity.
+  - intros H. right. apply IH. exact H.
+Qed.
+Theorem timezone_offset_2822_total s : utf8_valid s = true -> exists r, timezone_offset_2822 s = Val r.
+Proof.
+  intros Hv. unfold timezone_offset_2822.
+  destruct (take_alpha_spec s) as (name & Hs & _ & Halpha & Hlen & _).
+  rewrite Hlen. destruct (blen name >? 0) eqn:E.
+  - pose proof (alpha_forall name Halpha) as Hascii.
+    remember (snd (take_alpha s)) as rest eqn:Hrest. clear Hrest Hlen. subst s.
+    assert (Hvr : utf8_valid rest = true) by (rewrite utf8_valid_app_ascii in Hv by exact Hascii; exact Hv).
+    rewrite slice_to_app. cbv [bind].
+    rewrite str_from_app by (apply utf8_valid_starts_ok; exact Hvr). cbv [bind].
+    rewrite assoc_ic_lc. destruct (assoc_lc (map to_ascii_lowercase name) TZ2822_NAMES) as [o|] eqn:Eo.
+    + apply assoc_lc_range in Eo. unfold TZ2822_NAMES in Eo. cbn [map snd In] in Eo.
+      unfold mul_i32, TZ2822_SECS_PER_HOUR.
+      rewrite chk_in by (unfold in_i32, in_range, i32_min, i32_max; repeat (destruct Eo as [<-|Eo]; [lia|]); destruct Eo).
+      eexists; reflexivity.
+    + destruct (blen name =? 1) eqn:E1; [|eexists; reflexivity].
+      destruct name as [|l [|l2 nm]]; [cbv in E1; discriminate| |rewrite !blen_cons in E1; pose proof (blen_nonneg nm); lia].
+      change (index [l] 0) with (Val l). cbv [bind]. destruct (in_ranges l TZ2822_MILITARY); eexists; reflexivity.
+  - rewrite timezone_offset_unfold. cbn [andb].
+    pose proof (ncp_valid s Hv) as Hn. destruct s as [|c r]; [rewrite Hn; eexists; reflexivity|].
+    change (len_utf8 43) with 1. change (len_utf8 45) with 1. cbn [negb].
+    destruct Hn as [[Hc Hn]|[Hc (cp & r' & Hn & Hcp & _)]]; rewrite Hn.
+    + destruct (utf8_valid_tail_ascii c r Hc Hv) as [Hvr Hsr].
+      destruct (c =? 43); [rewrite str_from_1 by exact Hsr; cbv [bind pbind pok]; apply tz_tail_nocolon_total; exact Hvr|].
+      destruct (c =? 45); [rewrite str_from_1 by exact Hsr; cbv [bind pbind pok]; apply tz_tail_nocolon_total; exact Hvr|].
+      destruct (c =? TZ_MINUS_SIGN); eexists; reflexivity.
+    + replace (cp =? 43) with false by lia. replace (cp =? 45) with false by lia.
+      destruct (cp =? TZ_MINUS_SIGN); eexists; reflexivity.
+Qed.
